@@ -36,8 +36,12 @@ def entry(sym, parent, cls, value, vest_date=None, action="Deposit"):
 
 
 def deposit_row(sym, d, qty="10"):
+    # The row's own Price / Amount columns are filled in on some rows (derived from the row itself, so a replay agrees):
+    # a figure printed there is NOT an awards entry and must never stand in for one (C19-r5m1).
+    k = (d.toordinal() * 7 + len(sym) + len(qty)) % 5
+    price = {0: "$777.77", 1: "$0.01"}.get(k, "")
     return {"Date": us(d), "Action": "Stock Plan Activity", "Symbol": sym, "Description": "RSU", "Quantity": qty,
-            "Price": "", "Fees & Comm": "", "Amount": ""}
+            "Price": price, "Fees & Comm": "", "Amount": "$1,234.56" if k == 0 else ""}
 
 
 def judge(rows, awards, o, cnt):
